@@ -34,6 +34,9 @@ class Tensor:
             self.requires_grad = bool(I.truth(v))
             if self.requires_grad and "leaf" not in self.meta:
                 self.meta["leaf"] = core.fresh_name("leaf")
+                from . import autograd
+
+                autograd.register_leaf(I, self)
             return
         if name == "data":
             self.val = lift(v)
